@@ -16,6 +16,7 @@ EXPLANATION = (
     "id marker is written only after a present target was removed. Behaviour over all continuations follows by "
     "argument from these plus LMDB semantics and is not mechanised.")
 EXPLANATION += " Also decided: is_deleted and when_is_naddr_deleted answer only after reading their table through the caller's transaction; after the address marker is written the handler reaches the next tag (or Ok) only through a removal or through finding the kind non-removable."
+EXPLANATION += ' Also decided: the removal helpers scan from Time::min() to the `until` they are given, unchanged (the marker is recorded inclusively at the same time).'
 ASSUMPTIONS = []
 
 
